@@ -5,9 +5,7 @@ type nat =
 | O
 | S of nat
 
-val fst : ('a1 * 'a2) -> 'a1
-
-val snd : ('a1 * 'a2) -> 'a2
+val option_map : ('a1 -> 'a2) -> 'a1 option -> 'a2 option
 
 val length : 'a1 list -> nat
 
@@ -22,6 +20,8 @@ val compOpp : comparison -> comparison
 
 val add : nat -> nat -> nat
 
+val sub : nat -> nat -> nat
+
 type positive =
 | XI of positive
 | XO of positive
@@ -35,15 +35,6 @@ type z =
 | Z0
 | Zpos of positive
 | Zneg of positive
-
-val eqb : bool -> bool -> bool
-
-module Nat :
- sig
-  val eqb : nat -> nat -> bool
-
-  val min : nat -> nat -> nat
- end
 
 module Pos :
  sig
@@ -61,6 +52,10 @@ module Pos :
 
   val iter : ('a1 -> 'a1) -> 'a1 -> positive -> 'a1
 
+  val div2 : positive -> positive
+
+  val div2_up : positive -> positive
+
   val compare_cont : comparison -> positive -> positive -> comparison
 
   val compare : positive -> positive -> comparison
@@ -77,7 +72,7 @@ module Pos :
 
   val ldiff : positive -> positive -> n
 
-  val testbit : positive -> n -> bool
+  val coq_lxor : positive -> positive -> n
 
   val iter_op : ('a1 -> 'a1 -> 'a1) -> positive -> 'a1 -> 'a1
 
@@ -94,7 +89,7 @@ module N :
 
   val ldiff : n -> n -> n
 
-  val testbit : n -> n -> bool
+  val coq_lxor : n -> n -> n
  end
 
 module Z :
@@ -133,10 +128,6 @@ module Z :
 
   val eqb : z -> z -> bool
 
-  val max : z -> z -> z
-
-  val min : z -> z -> z
-
   val to_nat : z -> nat
 
   val of_nat : nat -> z
@@ -151,265 +142,293 @@ module Z :
 
   val modulo : z -> z -> z
 
-  val odd : z -> bool
+  val div2 : z -> z
 
-  val testbit : z -> z -> bool
+  val shiftl : z -> z -> z
+
+  val shiftr : z -> z -> z
 
   val coq_land : z -> z -> z
+
+  val coq_lxor : z -> z -> z
 
   val lnot : z -> z
  end
 
-val tl : 'a1 list -> 'a1 list
+val nth : nat -> 'a1 list -> 'a1 -> 'a1
 
-val last : 'a1 list -> 'a1 -> 'a1
+val flat_map : ('a1 -> 'a2 list) -> 'a1 list -> 'a2 list
 
-val rev : 'a1 list -> 'a1 list
-
-val concat : 'a1 list list -> 'a1 list
-
-val map : ('a1 -> 'a2) -> 'a1 list -> 'a2 list
-
-val fold_right : ('a2 -> 'a1 -> 'a1) -> 'a1 -> 'a2 list -> 'a1
-
-val existsb : ('a1 -> bool) -> 'a1 list -> bool
+val fold_left : ('a1 -> 'a2 -> 'a1) -> 'a2 list -> 'a1 -> 'a1
 
 val forallb : ('a1 -> bool) -> 'a1 list -> bool
-
-val filter : ('a1 -> bool) -> 'a1 list -> 'a1 list
-
-val combine : 'a1 list -> 'a2 list -> ('a1 * 'a2) list
 
 val firstn : nat -> 'a1 list -> 'a1 list
 
 val skipn : nat -> 'a1 list -> 'a1 list
 
-val seq : nat -> nat -> nat list
+val repeat : 'a1 -> nat -> 'a1 list
+
+val uw : z -> z -> z
 
 val sw : z -> z -> z
-
-val read_vnum_loop : z list -> z -> z -> nat -> (z * nat) option
-
-val read_vnum : z list -> (z * nat) option
-
-val iWNUMBUF_SIZE : z
 
 val iWFSM_CUSTOM_HDR_DATA_OFFSET : z
 
 val iWKV_MAGIC : z
 
-val iWDB_MAGIC : z
+val iWKV_BACKUP_MAGIC : z
 
-val iWKV_FSM_BPOW : z
+val wOP_SET : z
 
-val kVHDRSZ : z
+val wOP_COPY : z
 
-val pREFIX_KEY_LEN_V2 : z
+val wOP_WRITE : z
 
-val sLEVELS : z
+val wOP_RESIZE : z
 
-val sBLK_LKLEN : z
+val wOP_SAVEPOINT : z
 
-val dB_SZ : z
+val wOP_RESET : z
 
-val sBLK_SZ : z
+val wOP_SEP : z
 
-val sBLK_PAGE_SBLK_NUM_V2 : z
+val sizeof_WBSEP : z
 
-val sBLK_PAGE_SZ_V2 : z
+val sizeof_WBRESET : z
 
-val kVBLK_IDXNUM : z
+val sizeof_WBSET : z
 
-val kVBLK_INISZPOW : z
+val sizeof_WBCOPY : z
 
-val kVBLK_HDRSZ : z
+val sizeof_WBWRITE : z
 
-val sOFF_FLAGS_U1 : z
+val sizeof_WBRESIZE : z
 
-val sOFF_LVL_U1 : z
+val sizeof_WBSAVEPOINT : z
 
-val sOFF_LKL_U1 : z
+val offsetof_WBSEP_crc : z
 
-val sOFF_PNUM_U1 : z
+val offsetof_WBSEP_len : z
 
-val sOFF_P0_U4 : z
+val offsetof_WBSET_val : z
 
-val sOFF_KBLK_U4 : z
+val offsetof_WBSET_off : z
 
-val sOFF_PI0_U1 : z
+val offsetof_WBSET_len : z
 
-val sOFF_N0_U4 : z
+val offsetof_WBCOPY_off : z
 
-val sOFF_BPOS_U1_V2 : z
+val offsetof_WBCOPY_len : z
 
-val sOFF_LK_V2 : z
+val offsetof_WBCOPY_noff : z
 
-val dOFF_MAGIC_U4 : z
+val offsetof_WBWRITE_crc : z
 
-val dOFF_DBFLG_U1 : z
+val offsetof_WBWRITE_len : z
 
-val dOFF_NEXTDB_U4 : z
+val offsetof_WBWRITE_off : z
 
-val dOFF_P0_U4 : z
+val offsetof_WBRESIZE_osize : z
 
-val dOFF_N0_U4 : z
+val offsetof_WBRESIZE_nsize : z
 
-val dOFF_C0_U4 : z
+val offsetof_WBSAVEPOINT_ts : z
 
-val dOFF_METABLK_U4 : z
+val iwu_crc32_table : z list
 
-val dOFF_METABLKN_U4 : z
+val wAL_PAGE_SIZE : z
 
-val sBLK_FULL_LKEY : z
+val wAL_IWFSM_MAGICK : z
 
-val iW_VNUMBUFSZ : z
+val bKP_WAL_CLEANUP : z
 
-val iWDB_VNUM64_KEYS : z
+val bKP_MAIN_COPY : z
 
-val iWDB_REALNUM_KEYS : z
+val wAL_SCAN_SP_CHECKS_AVAIL : z
 
-val iWDB_COMPOUND_KEYS : z
+val wAL_REPLAY_REBASES_FPOS : z
 
-val iWFSM_MAGICK : z
+val iW_ROUNDUP : z -> z -> z
 
-type kmode = { km_vnum : bool; km_real : bool; km_compound : bool }
+type bytes = z list
 
-val cmp2 : z list -> z list -> z
+val le_enc : nat -> z -> bytes
 
-val sgn3 : z -> z -> z
+val le_dec : bytes -> z
 
-val read_vnum2 : z list -> z
+val rd : nat -> z -> bytes -> z
 
-val memcmp : nat -> z list -> z list -> z
+val rd_off : z -> bytes -> z
 
-val af_skip : z list -> z list
+type rec0 =
+| RSep of z * z
+| RSet of z * z * z
+| RCopy of z * z * z
+| RWrite of z * z * bytes
+| RResize of z * z
+| RSavepoint of z
+| RReset
 
-val af_int : z list -> z -> z * z list
+val hdr : z -> bytes
 
-val af_frac : z list -> nat -> z -> z -> z * z
+val enc_rec : rec0 -> bytes
 
-val af_part : z list -> (z * z) * z list
+val encode : rec0 list -> bytes
 
-val af_hasfrac : z list -> bool
+val rec_size : rec0 -> z
 
-val af_fracval : z -> z list -> z * z
+val layout_ok : bool
 
-val afcmp : (nat -> z list -> z list -> z) -> z list -> z list -> z
+val crc32_step : z -> z -> z
 
-val vnum_cmp : z list -> z list -> z
+val crc32 : bytes -> z -> z
 
-val cmp_keys_prefix :
-  (nat -> z list -> z list -> z) -> kmode -> z list -> z list -> z -> z
+type sstep =
+| SStop
+| SNext of z * z * z
 
-val cmp_keys :
-  (nat -> z list -> z list -> z) -> kmode -> z list -> z list -> z -> z
+val scan_step : bool -> bool -> z -> z -> bytes -> z -> z -> sstep
 
-val u8 : (z -> z) -> z -> z
+val scan_loop : bool -> nat -> bool -> z -> z -> bytes -> z -> z -> z * z
 
-val u16 : (z -> z) -> z -> z
+val sp_checks : bool
 
-val u32 : (z -> z) -> z -> z
+val scan_with : bool -> bytes -> z * z
 
-val u64 : (z -> z) -> z -> z
+val scan : bytes -> z * z
 
-val bytes_at : (z -> z) -> nat -> z -> z list
+val parse_loop : nat -> bytes -> rec0 list option
 
-val bS : z
+val parse : bytes -> rec0 list option
 
-val addr_of : z -> z
+val is_sp : rec0 -> bool
 
-val vnum_at : (z -> z) -> nat -> z -> z -> z -> z -> (z * z) option
+val is_sep : rec0 -> bool
 
-val rdv : (z -> z) -> z -> (z * z) option
+val first_sp : rec0 list -> z -> z option
 
-val bytes_eq : z list -> z list -> bool
+val u32 : z -> bool
 
-val list_eqz : z list -> z list -> bool
+val i64 : z -> bool
 
-type complaint =
-| CBadMagic of z
-| CBadDb of z
-| CChainLoop of z * z
-| CNodeHeader of z * z
-| CNodeEmpty of z
-| CNodeSlots of z * z
-| CNodeOrder of z
-| CGlobalOrder of z
-| CPrefix of z
-| CBackLink of z
-| CLevelChain of z * z
-| CLevelCount of z * z
-| CKvblk of z * z
-| CSlotOverlap of z
-| CBlocksOverlap of z
-| CLeak of z
-| CUnallocated of z
-| CBeyondFile of z
+val rec_range : rec0 -> bool
 
-type sblk = { s_blk : z; s_flags : z; s_lvl : z; s_lkl : z; s_pnum : 
-              z; s_p0 : z; s_kblk : z; s_pi : z list; s_n : z list;
-              s_bpos : z; s_lk : z list }
+val sep_ok : rec0 list -> z -> bool
 
-val nSLEV : nat
+val wf_log : rec0 list -> bool
 
-val nIDXA : nat
+val crc_ok : rec0 list -> bool
 
-val u32s : (z -> z) -> nat -> z -> z list
+val crc_full : rec0 list -> bool
 
-val read_sblk : (z -> z) -> z -> sblk
+val sp_offsets : rec0 list -> z -> z list
 
-val read_pidx :
-  (z -> z) -> nat -> z -> (z * z) list -> ((z * z) list * z) option
+type verdict =
+| VOk
+| VCorrupt
+| VFault
 
-type kvb = { k_szpow : z; k_idxsz : z; k_pidx : (z * z) list; k_idxend : z }
+type aop =
+| ASet of z * z * z
+| ACopy of z * z * z
+| AWrite of z * bytes
+| AResize of z
 
-val read_kvblk : (z -> z) -> z -> kvb option
+val take_pad : z -> bytes -> bytes
 
-val slot_key : (z -> z) -> z -> z -> z -> z -> (z list * z) option
+type rstep =
+| RStop of verdict
+| RNext of z * aop list
 
-val unstore : kmode -> z list -> z list * z
+val replay_step : bool -> bool -> z -> z -> bytes -> z -> rstep
 
-val stored_before : kmode -> z list -> z list -> bool
+val replay_loop :
+  nat -> bool -> bool -> z -> z -> bytes -> z -> verdict * aop list
 
-val mode_of : z -> kmode
+val fpos_rebased : bool
 
-val nthz : z list -> nat -> z
+val replay_ops_with : bool -> bool -> z -> z -> bytes -> verdict * aop list
 
-val nthp : (z * z) list -> nat -> z * z
+val replay_ops : bool -> z -> z -> bytes -> verdict * aop list
 
-val chain_ok : (z list -> z list -> bool) -> z list list -> bool
+val overwrite : bytes -> bytes -> bytes option
 
-val distinct : z list -> bool
+val splice_at : bytes -> z -> bytes -> bytes option
 
-val ins_range : (z * z) -> (z * z) list -> (z * z) list
+val splice : bytes -> z -> bytes -> bytes option
 
-val sort_ranges : (z * z) list -> (z * z) list
+val fill_at : bytes -> z -> z -> z -> bytes option
 
-val ranges_disjoint : (z * z) list -> bool
+val slice_at : bytes -> z -> z -> bytes option
 
-val first_overlap : (z * z) list -> z option
+val resize_nat : nat -> bytes -> bytes
 
-val audit_node :
-  (z -> z) -> kmode -> sblk -> (complaint list * z list list) * (z * z) list
+val apply_op : bytes -> aop -> bytes option
 
-val walk : (z -> z) -> nat -> nat -> z -> z list -> z list option
+val apply_ops : bytes -> aop list -> bytes option
 
-val page_of : sblk -> z * z
+val recover_with :
+  bool -> bool -> z -> z -> bytes -> bytes -> (verdict * bytes) * aop list
 
-val dedup : (z * z) list -> (z * z) list
+val recover : bool -> z -> z -> bytes -> bytes -> (verdict * bytes) * aop list
 
-val audit_db : (z -> z) -> nat -> z -> (complaint list * (z * z) list) * z
+val aop_sig : aop -> (z * z) * z
 
-val audit_dbs : (z -> z) -> nat -> nat -> z -> complaint list * (z * z) list
+type effect =
+| ELogAppend of bytes
+| ELogFsync
+| ELogTruncate
+| EMainStore of aop
+| EMainResize of z
+| EMsync
 
-val bm_bit : (z -> z) -> z -> z -> bool
+type pstate = { p_buf : bytes; p_log : bytes; p_disk : bytes; p_rfoff : 
+                z; p_stage : z; p_fatal : bool }
 
-val check_free : (z -> z) -> nat -> z -> z -> complaint list
+type pcfg = { c_bufsz : z; c_ccrc : bool }
 
-val check_used : (z -> z) -> nat -> z -> z -> complaint list
+val lenZ : bytes -> z
 
-val check_map : (z -> z) -> z -> z -> z -> (z * z) list -> complaint list
+val flush_wl : pcfg -> pstate -> bool -> pstate * effect list
 
-val hDRLEN : z
+val write_wl : pcfg -> pstate -> bytes -> bytes -> pstate * effect list
 
-val audit : (z -> z) -> z -> complaint list
+val replay_effects : z -> aop list -> effect list
+
+val rollforward_live : pcfg -> pstate -> pstate * effect list
+
+val checkpoint : pcfg -> pstate -> bool -> z -> pstate * effect list
+
+val savepoint : pcfg -> pstate -> z -> bool -> pstate * effect list
+
+type event =
+| VWrite of z * bytes
+| VSet of z * z * z
+| VCopy of z * z * z
+| VResize of z * z
+| VSynced
+| VSavepoint of z * bool
+| VCheckpoint of z
+
+val write_hdr : z -> z -> z -> bytes
+
+val step : pcfg -> pstate -> event -> pstate * effect list
+
+val run : pcfg -> pstate -> event list -> pstate * effect list
+
+val apply_effect : (bytes * bytes) -> effect -> bytes * bytes
+
+val after_effects : bytes -> bytes -> effect list -> bytes * bytes
+
+val recovery_effects : bool -> bytes -> bytes -> effect list
+
+val effect_sig : effect -> ((z * z) * z) * z
+
+val lenB : bytes -> z
+
+val mk_image : bytes -> bytes -> bytes
+
+val split_image : bytes -> (bytes * bytes) option
+
+val open_image : bool -> bytes -> (verdict * bytes) * aop list
